@@ -76,19 +76,61 @@ GUARD_INVALID = [
     'def g(n):\n    return n\n\nif __name__   ==   "__main__"  :\n    print g(1),\n    x = = 2\n',
 ]
 
+# texts whose ONLY error sits inside something full cleaning removes (a leading comment block, a shebang, an inline or
+# indented comment, a docstring, a blank line, the main-guard part): a NUL character makes the whole text invalid
+# wherever it stands. Seeded change C14-k: the text was parsed only after the leading comments were gone.
+NOISE_INVALID = [
+    "#!/usr/bin/env python3\n# exported by the grader\x00\nfor i in range(3):\n    print(i)\n",
+    "# nothing here yet\x00\n", "#\x00", "# a\n# b\x00\n\n# c\nx = 1\n", "#!/bin/sh\x00\nx = 1\n",
+    "x = 1  # inline\x00\n", "def f():\n    # indented\x00\n    return 1\n", '"""doc\x00"""\nx = 1\n',
+    'def f():\n    """doc\x00"""\n    return 1\n', "x = 1\n\x00\ny = 2\n", "x = 1\n  \x00  \n",
+    'x = 1\nif __name__ == "__main__":\n    pass  # \x00\n', 'x = 1\nif __name__ == "__main__":\n    print("\x00")\n',
+    "# coding: utf-8\x00\nx = 1\n", "# c\n\n\n# d\x00\nif x:\n    pass\n", "x = 1\n# trailing comment\x00",
+    "pass\npass  # \x00\nx = 1\n", '__import__("sys").path[0:0] = ["a"]  # \x00\nx = 1\n',
+]
+
 FIXED_BAD = COMMENT_ONLY + GUARD_INVALID[:3] + WS_ONLY[:8] + GUARD_INVALID[3:] + [
     "x = (1,\n", 'x = """abc\n', "if x:\n        y = 1\n    z = 2\n", "x = 1\x00\n", "", "   \n\n", "\t",
     "x = 1\x0c\n", "def (:\n", "x = 'a\n", "\\", "x = 1 \\", "if x:\n\ty=1\n        z=2\n", "\ufeffx = 1\n",
     "x = $\n", "x = 1\r y = 2\n", "x = 0777\n", "a = 1\n  b = 2\n", "\x00", "\n", "pass\n", "x = )\n", "]\n",
     "def f():\nreturn 1\n", "x = 1\x1a\n", "print('a' 'b'\n", "'''\n", "x = f'{\n", "lambda: (yield)\n",
     "class:\n", "\x7f\n", "x = 1;;\n", "return\n", "a = b = \n", "0x\n", "1_\n", "x = '\\\n",
-]
+] + NOISE_INVALID
 
 
 def mutate(rng, text):
     """One malformed-stream mutation of a valid program."""
     kind = rng.choice(["trunc", "trunc", "bracket", "quote", "indent", "dedent", "ctrl", "nul", "delete",
-                       "dup", "tab", "backslash", "empty", "blank", "comments", "comments"])
+                       "dup", "tab", "backslash", "empty", "blank", "comments", "comments", "noise_err", "noise_err"])
+    if kind == "noise_err":
+        # the error (a NUL) inside a piece of noise added to the valid program: leading comment block, shebang,
+        # inline comment, comment line inside the code, docstring, trailing comment, blank line, main-guard part
+        where = rng.choice(["lead", "lead", "shebang", "inline", "inner", "doc", "trail", "blank", "guard", "only"])
+        lines = text.split("\n")
+        c = rng.choice(["# note\x00", "#\x00", "# a \x00 b", "#\x00 note"])
+        if where == "lead":
+            head = [rng.choice(["# first", "#!/usr/bin/env python", "# coding: utf-8"])] * rng.randint(0, 2) + [c] + ["# more"] * rng.randint(0, 1)
+            return "\n".join(head + [""] * rng.randint(0, 1) + lines), kind
+        if where == "shebang":
+            return "#!/usr/bin/env python\x00\n" + text, kind
+        if where == "inline":
+            j = rng.randrange(len(lines))
+            lines[j] = lines[j] + "  " + c if lines[j].strip() else c
+            return "\n".join(lines), kind
+        if where == "inner":
+            j = rng.randrange(len(lines) + 1)
+            ind = (lines[j][:len(lines[j]) - len(lines[j].lstrip())] if j < len(lines) else "")
+            return "\n".join(lines[:j] + [ind + c] + lines[j:]), kind
+        if where == "doc":
+            return '"""module doc\x00"""\n' + text, kind
+        if where == "trail":
+            return text.rstrip("\n") + "\n" + c + rng.choice(["", "\n"]), kind
+        if where == "blank":
+            j = rng.randrange(len(lines) + 1)
+            return "\n".join(lines[:j] + [rng.choice(["\x00", " \x00", "\x00 "])] + lines[j:]), kind
+        if where == "guard":
+            return text.rstrip("\n") + '\nif __name__ == "__main__":\n    pass  ' + c + "\n", kind
+        return c + rng.choice(["", "\n", "\n\n# and nothing else\n"]), kind
     if rng.random() < 0.12:
         # only white space of some Unicode kind (information separators included), alone or mixed with blanks
         k = rng.randint(1, 6)
